@@ -11,8 +11,9 @@
 //!   descs  = descriptors of [c, fuse c, reorder c, lift c, drop_mid c, reorder(fuse c),
 //!            lift(reorder(fuse c)), drop_mid(lift(reorder(fuse c)))]; a node is ["src"] |
 //!            ["st",[ids]] | ["gbk"] | ["cv",has_local_groups] | ["cg",fanout|null] | ["cogroup"] |
-//!            ["mat"]; an operator's id is the position of that operator OBJECT (Arc data pointer)
-//!            among the operators of c
+//!            ["mat"]; an operator's id names the operator OBJECT (Arc data pointer): the first
+//!            position of that object among the operators of c (an object may occur several times:
+//!            `["ref", k]` items and `apply_transform(arc.clone())`, kind "xf")
 //!   opinfo = [key_preserving, value_only, reorder_safe, cost_hint] of each operator of c
 //!   execs  = [seq optimised, seq literal, par optimised, par literal] outcomes
 //!   extra  = prog: [desc of build_plan().chain, explain().steps node types,
@@ -110,6 +111,17 @@ fn pass_fuse(c: Vec<Node>) -> Vec<Node> {
             }
             out
         }
+        // the seeded change the coordinator reported: fusion drops back-to-back repeats of one Arc
+        Some("fuse_dedup") => vp::fuse(c)
+            .into_iter()
+            .map(|n| match n {
+                Node::Stateless(mut ops) => {
+                    ops.dedup_by(|a, b| Arc::ptr_eq(a, b));
+                    Node::Stateless(ops)
+                }
+                other => other,
+            })
+            .collect(),
         _ => vp::fuse(c),
     }
 }
@@ -585,7 +597,25 @@ fn cg_node(cid: &Cid, lifted: bool, fanout: Option<usize>) -> Node {
 }
 
 /// the synthetic chain of a JSON description, plus the row type of every Materialized node
+/// the operator objects defined so far in a chain description; `["ref", k]` = a clone of the Arc
+/// of the k-th definition (the SAME operator instance used again)
+#[derive(Default)]
+struct Defs(Vec<(Arc<dyn DynOp>, OpSpec)>);
+impl Defs {
+    fn item(&mut self, j: &Value) -> Option<(Arc<dyn DynOp>, OpSpec)> {
+        let a = j.as_array()?;
+        if a.len() == 2 && a[0] == json!("ref") {
+            return self.0.get(a[1].as_u64()? as usize).cloned();
+        }
+        let spec = parse_op(j)?;
+        let op = mk_op(&spec);
+        self.0.push((op.clone(), spec.clone()));
+        Some((op, spec))
+    }
+}
+
 fn build_syn(nodes: &[Value]) -> Option<(Vec<Node>, Vec<Option<Shape>>)> {
+    let mut defs = Defs::default();
     let mut chain = vec![];
     let mut mats = vec![];
     for j in nodes {
@@ -599,8 +629,11 @@ fn build_syn(nodes: &[Value]) -> Option<(Vec<Node>, Vec<Option<Shape>>)> {
                 mat_node(sh, &parse_vals(&a[2]).ok()?)
             }
             ("st", 2) => {
-                let ops: Option<Vec<OpSpec>> = a[1].as_array()?.iter().map(parse_op).collect();
-                Node::Stateless(ops?.iter().map(mk_op).collect())
+                let mut ops = vec![];
+                for item in a[1].as_array()? {
+                    ops.push(defs.item(item)?.0);
+                }
+                Node::Stateless(ops)
             }
             ("gbk", 1) => gbk_node(),
             ("cv", 3) => cv_node(&parse_cid(&a[1]).ok()?, a[2].as_bool()?),
@@ -642,10 +675,109 @@ fn run_syn(input: &Value) -> Value {
     json!(["ok", s.descs, s.opinfo, execs, [Value::Array(prefixes), json!(explain)]])
 }
 
+// ------------------------------------------------------------------ kind "xf"
+// a REAL pipeline: from_vec, then one `apply_transform(arc.clone())` per item (the public way to put
+// a user operator - possibly the same Arc several times - into a pipeline), and the real barrier
+// builders; described in the synthetic-chain syntax (each "st" holds exactly one item, no "mat")
+
+fn xf_apply<T: Row>(c: &PCollection<T>, op: Arc<dyn DynOp>, tout: Shape) -> Coll {
+    match tout {
+        Shape::U => Coll::U(c.apply_transform::<Val>(op)),
+        Shape::KV => Coll::KV(c.apply_transform::<(Val, Val)>(op)),
+        Shape::KG => Coll::KG(c.apply_transform::<(Val, Vec<Val>)>(op)),
+        Shape::KW => Coll::KW(c.apply_transform::<(Val, Wrapped)>(op)),
+        Shape::L => Coll::L(c.apply_transform::<Vec<Val>>(op)),
+    }
+}
+fn coll_shape(c: &Coll) -> Shape {
+    match c {
+        Coll::U(_) => Shape::U,
+        Coll::KV(_) => Shape::KV,
+        Coll::KG(_) => Shape::KG,
+        Coll::KW(_) => Shape::KW,
+        Coll::L(_) => Shape::L,
+    }
+}
+fn build_xf(p: &Pipeline, nodes: &[Value]) -> Option<Coll> {
+    let mut defs = Defs::default();
+    let first = nodes.first()?.as_array()?;
+    if first.len() != 3 || first[0] != json!("src") {
+        return None;
+    }
+    let rows = parse_vals(&first[2]).ok()?;
+    let mut coll = match shape_of_name(first[1].as_str()?)? {
+        Shape::U => Coll::U(from_vec(p, typed_rows::<Val>(&rows))),
+        Shape::KV => Coll::KV(from_vec(p, typed_rows::<(Val, Val)>(&rows))),
+        Shape::KG => Coll::KG(from_vec(p, typed_rows::<(Val, Vec<Val>)>(&rows))),
+        _ => return None,
+    };
+    for j in &nodes[1..] {
+        let a = j.as_array()?;
+        coll = match (a.first()?.as_str()?, a.len(), coll) {
+            ("st", 2, c) => {
+                let items = a[1].as_array()?;
+                if items.len() != 1 {
+                    return None;
+                }
+                let (op, spec) = defs.item(&items[0])?;
+                match &c {
+                    Coll::U(c) => xf_apply(c, op, spec.tout),
+                    Coll::KV(c) => xf_apply(c, op, spec.tout),
+                    Coll::KG(c) => xf_apply(c, op, spec.tout),
+                    Coll::KW(c) => xf_apply(c, op, spec.tout),
+                    Coll::L(c) => xf_apply(c, op, spec.tout),
+                }
+            }
+            ("gbk", 1, Coll::KV(c)) => Coll::KG(c.group_by_key()),
+            ("cv", 3, Coll::KV(c)) if a[2] == json!(false) => {
+                let cid = parse_cid(&a[1]).ok()?;
+                if cid.list_out() {
+                    ibv::with_list_comb!(&cid, cb => Coll::KG(c.combine_values(cb)))
+                } else {
+                    ibv::with_scalar_comb!(&cid, cb => Coll::KV(c.combine_values(cb)))
+                }
+            }
+            ("cv", 3, Coll::KG(c)) if a[2] == json!(true) => {
+                let cid = parse_cid(&a[1]).ok()?;
+                if cid.list_out() {
+                    ibv::with_list_comb!(&cid, cb => Coll::KG(c.combine_values_lifted(cb)))
+                } else {
+                    ibv::with_scalar_comb!(&cid, cb => Coll::KV(c.combine_values_lifted(cb)))
+                }
+            }
+            _ => return None,
+        };
+    }
+    Some(coll)
+}
+fn run_xf(input: &Value) -> Value {
+    let parsed = (|| {
+        let a = input.as_array()?;
+        if a.len() != 3 {
+            return None;
+        }
+        Some((shape_of_name(a[0].as_str()?)?, a[1].as_array()?.clone(), a[2].as_u64()? as usize))
+    })();
+    let Some((term, nodes, parts)) = parsed else { return json!(["invalid"]) };
+    let p = Pipeline::default();
+    let Some(coll) = build_xf(&p, &nodes) else { return json!(["invalid"]) };
+    if coll_shape(&coll) != term {
+        return json!(["invalid"]);
+    }
+    match coll {
+        Coll::U(c) => prog_obs(&p, c, parts),
+        Coll::KV(c) => prog_obs(&p, c, parts),
+        Coll::KG(c) => prog_obs(&p, c, parts),
+        Coll::KW(c) => prog_obs(&p, c, parts),
+        Coll::L(c) => prog_obs(&p, c, parts),
+    }
+}
+
 fn run(kind: &str, input: &Value) -> Value {
     match kind {
         "prog" => run_prog(input),
         "syn" => run_syn(input),
+        "xf" => run_xf(input),
         _ => json!(["invalid"]),
     }
 }
@@ -1184,6 +1316,165 @@ fn random_node(rng: &mut SplitMix64, shape: Shape) -> (Value, Shape) {
     }
 }
 
+fn j_ref(k: usize) -> Value {
+    json!(["ref", k])
+}
+fn emit_xf_case(em: &mut Emitter, term: Shape, nodes: &[Value], parts: usize, tags: &[&str]) {
+    let input = json!([name_of_shape(term), nodes, parts]);
+    let probe = run_xf(&input);
+    assert!(probe[0] == json!("ok"), "generator produced an invalid transform pipeline: {input}");
+    em.case("xf", input, changed(&probe), tags);
+}
+
+/// the SAME operator object applied several times: consecutive repeats (k = 2, 3), repeats separated
+/// by another operator, the same object in two blocks around a barrier / marker - as synthetic chains
+/// (one node per item and pre-fused) and as real pipelines through `apply_transform`
+fn gen_reuse(seed: u64, tier: Tier, em: &mut Emitter) {
+    let rows = kv_rows4();
+    let src = j_src(Shape::KV, &rows);
+    let kv = Shape::KV;
+    // non-idempotent bodies: x*3, x+1 ; an idempotent filter
+    let bodies = [b_mapv(&EFun::Mul(3)), b_mapv(&EFun::Add(1)), b_filtv(&PFun::Lt(20))];
+    // item lists over two definitions a (= def 0), b (= def 1): the first use of each defines it
+    let shapes: [&[usize]; 10] = [
+        &[0, 0], &[0, 0, 0], &[0, 1, 0], &[0, 0, 1], &[1, 0, 0], &[0, 1, 1, 0], &[0, 1, 0, 1], &[0, 0, 1, 1],
+        &[0, 0, 0, 0], &[0, 1, 1],
+    ];
+    let flag_sets: &[((bool, bool, bool), (bool, bool, bool))] =
+        &[(FFF, FFF), (TTT, TTT), (TTT, (true, true, false)), ((false, true, true), TTT)];
+    let cost_sets: &[(u8, u8)] = if tier == Tier::Thorough {
+        &[(10, 10), (3, 1), (1, 3), (2, 2), (0, 1), (1, 1), (3, 0), (10, 2)]
+    } else {
+        &[(10, 10), (3, 1), (1, 3), (2, 2)]
+    };
+    let mut idx = 0usize;
+    for (bi, (ba, bb)) in [(0usize, 1usize), (0, 2), (1, 0)].iter().enumerate() {
+        for sh in shapes {
+            for (fa, fb) in flag_sets {
+                for (ca, cb) in cost_sets {
+                    if tier == Tier::Quick && (idx + bi) % 2 == 1 && sh.len() > 3 {
+                        idx += 1;
+                        continue;
+                    }
+                    let mut defined = [false, false];
+                    let mut next_def = 0usize;
+                    let mut def_idx = [0usize, 0usize];
+                    let items: Vec<Value> = sh
+                        .iter()
+                        .map(|&w| {
+                            if defined[w] {
+                                j_ref(def_idx[w])
+                            } else {
+                                defined[w] = true;
+                                def_idx[w] = next_def;
+                                next_def += 1;
+                                if w == 0 {
+                                    j_op(kv, kv, bodies[*ba].clone(), *fa, *ca)
+                                } else {
+                                    j_op(kv, kv, bodies[*bb].clone(), *fb, *cb)
+                                }
+                            }
+                        })
+                        .collect();
+                    let parts = [0usize, 2, 3][idx % 3];
+                    let per_node: Vec<Value> =
+                        std::iter::once(src.clone()).chain(items.iter().map(|o| j_st(vec![o.clone()]))).collect();
+                    match idx % 3 {
+                        0 => emit_syn_case(em, kv, &per_node, parts, &["reuse", "per_node"]),
+                        1 => emit_syn_case(em, kv, &[src.clone(), j_st(items.clone())], parts, &["reuse", "prefused"]),
+                        _ => emit_xf_case(em, kv, &per_node, parts, &["reuse", "apply_transform"]),
+                    }
+                    idx += 1;
+                }
+            }
+        }
+    }
+    // the documented shape of the seeded change: x*3 applied twice / three times through one Arc
+    let a = j_op(kv, kv, bodies[0].clone(), FFF, 10);
+    let b = j_op(kv, kv, bodies[1].clone(), FFF, 10);
+    for parts in [0usize, 2] {
+        for k in [2usize, 3] {
+            let mut nodes = vec![src.clone(), j_st(vec![a.clone()])];
+            for _ in 1..k {
+                nodes.push(j_st(vec![j_ref(0)]));
+            }
+            emit_xf_case(em, kv, &nodes, parts, &["reuse", "apply_transform", "repeat"]);
+            emit_syn_case(em, kv, &nodes, parts, &["reuse", "per_node", "repeat"]);
+        }
+        // separated by another operator; the same object on both sides of a barrier / of a marker
+        let sep = vec![src.clone(), j_st(vec![a.clone()]), j_st(vec![b.clone()]), j_st(vec![j_ref(0)])];
+        emit_xf_case(em, kv, &sep, parts, &["reuse", "apply_transform", "separated"]);
+        emit_syn_case(em, kv, &sep, parts, &["reuse", "per_node", "separated"]);
+        let around = vec![src.clone(), j_st(vec![a.clone()]), j_st(vec![j_ref(0)]), j_cv(&Cid::Sum, false),
+                          j_st(vec![j_ref(0)]), j_st(vec![j_ref(0)])];
+        emit_xf_case(em, kv, &around, parts, &["reuse", "apply_transform", "around_barrier"]);
+        emit_syn_case(em, kv, &around, parts, &["reuse", "per_node", "around_barrier"]);
+        let around2 = vec![src.clone(), j_st(vec![a.clone()]), json!(["gbk"]), j_cv(&Cid::Sum, true),
+                           j_st(vec![j_ref(0)]), j_st(vec![b.clone()]), j_st(vec![j_ref(1)])];
+        emit_xf_case(em, kv, &around2, parts, &["reuse", "apply_transform", "around_pair"]);
+        let pre = vec![src.clone(), j_st(vec![a.clone()])];
+        let val = prefix_value(&pre, kv).expect("prefix value");
+        let mut nodes = pre.clone();
+        nodes.push(j_mat(kv, &val));
+        nodes.push(j_st(vec![j_ref(0)]));
+        nodes.push(j_st(vec![j_ref(0)]));
+        emit_syn_case(em, kv, &nodes, parts, &["reuse", "per_node", "around_marker"]);
+        // an empty Stateless node between two uses of one object
+        emit_syn_case(em, kv, &[src.clone(), j_st(vec![a.clone()]), j_st(vec![]), j_st(vec![j_ref(0)])], parts,
+                      &["reuse", "per_node", "repeat"]);
+    }
+    // random sequences over three objects
+    let mut rng = seed_mix(seed, 0xC03_0004);
+    let count = if tier == Tier::Thorough { 2000 } else { 150 };
+    for i in 0..count {
+        let nobj = 1 + rng.below(3) as usize;
+        let specs: Vec<Value> = (0..nobj)
+            .map(|_| {
+                let body = bodies[rng.below(3) as usize].clone();
+                j_op(kv, kv, body, random_flags(&mut rng), *rng.pick(&COSTS))
+            })
+            .collect();
+        let len = 2 + rng.below(5) as usize;
+        let mut def_idx: Vec<Option<usize>> = vec![None; nobj];
+        let mut next_def = 0usize;
+        let mut nodes = vec![src.clone()];
+        let mut block: Vec<Value> = vec![];
+        let fused = i % 3 == 1;
+        for _ in 0..len {
+            if i % 3 != 2 && rng.chance(1, 6) {
+                if !block.is_empty() {
+                    nodes.push(j_st(std::mem::take(&mut block)));
+                }
+                nodes.push(j_cv(&Cid::Sum, false));
+                continue;
+            }
+            let w = rng.below(nobj as u64) as usize;
+            let item = match def_idx[w] {
+                Some(k) => j_ref(k),
+                None => {
+                    def_idx[w] = Some(next_def);
+                    next_def += 1;
+                    specs[w].clone()
+                }
+            };
+            if fused {
+                block.push(item);
+            } else {
+                nodes.push(j_st(vec![item]));
+            }
+        }
+        if !block.is_empty() {
+            nodes.push(j_st(block));
+        }
+        let parts = rng.below(5) as usize;
+        if i % 3 == 2 {
+            emit_xf_case(em, kv, &nodes, parts, &["reuse", "apply_transform", "random"]);
+        } else {
+            emit_syn_case(em, kv, &nodes, parts, &["reuse", if fused { "prefused" } else { "per_node" }, "random"]);
+        }
+    }
+}
+
 fn generate(seed: u64, tier: Tier, em: &mut Emitter) {
     let _ = std::fs::create_dir_all(DIR);
     let _ = cg_out(&Cid::Sum);
@@ -1191,6 +1482,7 @@ fn generate(seed: u64, tier: Tier, em: &mut Emitter) {
     gen_markers(seed, tier, em);
     gen_barriers(seed, tier, em);
     gen_blocks(seed, tier, em);
+    gen_reuse(seed, tier, em);
     gen_random_chains(seed, tier, em);
     gen_random_programs(seed, tier, em);
 }
